@@ -18,12 +18,15 @@ func registerC14() {
 		Level: "exploration",
 		Rule: "family transitions: all 65536 register states x 256 input bytes, the register being driven to each state through the public API by writing the " +
 			"two-byte preimage computed with the bit-serial reference (every (state, byte) pair is one distinct non-trivial case); family streaming: PRNG byte strings " +
-			"(length 0..5000) x PRNG write partitions, compared with the reference, Reset, residue and Sum(nil); distinct by string digest",
+			"(length 0..5000) x PRNG write partitions, compared with the reference, Reset, residue and Sum(nil); distinct by string digest; family long-writes: for each of the " +
+			"65536 register states s and block offsets 0/4/8/.../28 one single Write of >= 64 bytes that drives the register to s and then feeds it s itself followed by zero bytes " +
+			"(the input on which multi-byte-at-a-time and zero-skipping implementations go wrong), compared with the reference and with a byte-wise feed",
 		Assume:        []string{"the bit-serial reference CRC-16/ARC (12 lines, checked against the catalogue check value 0xBB3D) is the specification"},
 		MinNontrivial: 1 << 24,
 		Families: []lib.Family{
 			{Name: "transitions", N: func(string) uint64 { return 256 }, Run: c14Transitions},
 			{Name: "streaming", N: func(t string) uint64 { return tierN(t, 20000, 2000000) }, Run: c14Streaming},
+			{Name: "long-writes", N: func(string) uint64 { return 256 }, Run: c14LongWrites},
 		},
 		Exhaustive: func(string) bool { return true },
 	})
@@ -158,4 +161,54 @@ func bucket(n int) string {
 	default:
 		return "100+"
 	}
+}
+
+// c14LongWrites: idx = high byte of the register state.
+func c14LongWrites(c *lib.Ctx, idx uint64) {
+	rng := lib.NewRand("C14.long-writes", idx)
+	bad := 0
+	n := int64(0)
+	for lo := 0; lo < 256; lo++ {
+		s := uint16(idx)<<8 | uint16(lo)
+		for _, off := range []int{0, 4, 8, 12, 16, 20, 24, 28} {
+			// prefix of 32+off bytes ending in two bytes that force the register to s
+			pre := rng.Bytes(32 + off)
+			t := ref.CRC(pre[:len(pre)-2])
+			b0, b1 := ref.CRCPreimage(s)
+			pre[len(pre)-2] = b0 ^ byte(t)
+			pre[len(pre)-1] = b1 ^ byte(t>>8)
+			if ref.CRC(pre) != s {
+				c.Violation(pre, "harness: could not force register state %#04x", s)
+				return
+			}
+			data := append(pre, byte(s), byte(s>>8), 0, 0, 0, 0, 0, 0)
+			data = append(data, rng.Bytes(24)...)
+			want := ref.CRC(data)
+			n++
+			if got := dyncrc16.Checksum(data); got != want {
+				if bad < 3 {
+					c.Violation(data, "Checksum of one %d-byte block in which the register (state %#04x at offset %d) is fed its own value followed by zeros: got %#04x, CRC-16/ARC gives %#04x", len(data), s, len(pre), got, want)
+				}
+				bad++
+				continue
+			}
+			h := dyncrc16.New()
+			h.Write(data)
+			g := dyncrc16.New()
+			for i := range data {
+				g.Write(data[i : i+1])
+			}
+			if h.Sum16() != want || g.Sum16() != want {
+				if bad < 3 {
+					c.Violation(data, "single Write gives %#04x, byte-wise feed %#04x, CRC-16/ARC %#04x (state %#04x fed its own value at offset %d)", h.Sum16(), g.Sum16(), want, s, len(pre))
+				}
+				bad++
+			}
+		}
+	}
+	c.EvalN(n)
+	if bad == 0 {
+		c.NontrivialN(n)
+	}
+	c.Count("long_writes", n)
 }
